@@ -372,6 +372,9 @@ func (r *Ref) structConv(src reflect.Value, T reflect.Type, st, stNext state, pa
 
 // walkPath follows a dotted source path. Pointer hops are nil-guarded: if any
 // intermediate pointer is nil the result is the nil pointer of type *Last (or Last if it is a pointer).
+// WalkCtx holds the context arguments of the method call that is being judged (source methods take them).
+var WalkCtx = map[reflect.Type]reflect.Value{}
+
 func walkPath(src reflect.Value, p []string) (reflect.Value, bool, error) {
 	cur := src
 	viaPtr := false
@@ -395,14 +398,23 @@ func walkPath(src reflect.Value, p []string) (reflect.Value, bool, error) {
 		if !ok || len(sf.Index) != 1 {
 			// an argument-less method of the source struct used as a field
 			mt, found := reflect.PointerTo(curT).MethodByName(name)
-			if !found || mt.Type.NumIn() != 1 || mt.Type.NumOut() < 1 {
-				return reflect.Value{}, false, &Unsupported{"path element " + name + " is neither a direct field nor an argument-less method"}
+			if !found || mt.Type.NumOut() < 1 {
+				return reflect.Value{}, false, &Unsupported{"path element " + name + " is neither a direct field nor a method"}
+			}
+			// every parameter of a source method is a context
+			var margs []reflect.Value
+			for a := 1; a < mt.Type.NumIn(); a++ {
+				cv, ok := WalkCtx[mt.Type.In(a)]
+				if !ok {
+					return reflect.Value{}, false, &Unsupported{"source method " + name + " needs a context that is not available"}
+				}
+				margs = append(margs, cv)
 			}
 			curT = mt.Type.Out(0)
 			if !nilHit {
 				recv := reflect.New(cur.Type())
 				recv.Elem().Set(forceIface(cur))
-				outs := recv.MethodByName(name).Call(nil)
+				outs := recv.MethodByName(name).Call(margs)
 				if len(outs) == 2 && !outs[1].IsNil() {
 					return reflect.Value{}, false, &RefError{Err: outs[1].Interface().(error), Path: []string{name}}
 				}
